@@ -52,7 +52,7 @@ def scenarios(prop, quick, seed):
     return out
 
 
-def run(prop, tier, replay=None):
+def run(prop, tier, replay=None, collect_only=False):
     t0 = time.time()
     seed = vlib.seed()
     quick = tier == "quick"
@@ -135,6 +135,8 @@ def run(prop, tier, replay=None):
         if fd["id"] not in printed:
             printed.add(fd["id"])
             print("KNOWN-FINDING: property=%s %s (%s)" % (prop, fd["id"], fd["title"]))
+    if collect_only:
+        return cov, violations, broken
     cov["explanation"] = ("states/transitions: TLC totals for WriteReplay.tla instances (Agree, Bound, Once, NeverTwice); "
                           "traces_validated_against_impl: audit records of the real cache judged by WRAudit.tla")
     vlib.write_evidence(prop, tier, "model_checking", cov, time.time() - t0, violations=len(violations),
